@@ -2,6 +2,7 @@ package cli
 
 import (
 	"fmt"
+	"regexp"
 	"strings"
 
 	"github.com/JunNishimura/Goit/verifharness/core/gitfmt"
@@ -137,6 +138,20 @@ func oracleConfig(c *Ctx) error {
 			return unchangedAll(c, "commit was refused for lack of identity")
 		}
 		if c.Res.Exit != 0 {
+			// "is the value later commands use": with a usable identity (a name without '<', an e-mail of the plain
+			// shape) and something staged that HEAD does not hold, the commit has to go through
+			usable := !strings.Contains(name, "<") && plainEmail.MatchString(email)
+			differs := len(c.Pre.IdxMap) > 0
+			if hc := c.Pre.HeadCommit(); hc != "" {
+				if snap, err := c.Pre.Snapshot(hc); err == nil {
+					differs = len(mapDiff(snap, c.Pre.IdxMap)) > 0
+				} else {
+					differs = false
+				}
+			}
+			if usable && differs && !c.Res.Panic && !c.Res.Timeout {
+				return fmt.Errorf("name %q and e-mail %q are configured and the staging area differs from HEAD, yet commit fails: %s", name, email, c.Res)
+			}
 			return nil
 		}
 		cm, err := gitfmt.ReadCommit(c.Post.Store, c.Post.HeadCommit())
@@ -164,6 +179,8 @@ func oracleConfig(c *Ctx) error {
 	return nil
 }
 
+var plainEmail = regexp.MustCompile(`^[a-zA-Z0-9_][a-zA-Z0-9_.+-]*@[a-z0-9]([a-z0-9-]*[a-z0-9])?(\.[a-z0-9]+)*\.[a-zA-Z]{2,}$`)
+
 func isASCII(s string) bool {
 	for i := 0; i < len(s); i++ {
 		if s[i] >= 0x80 {
@@ -178,11 +195,11 @@ var profConfig = register(&Profile{
 	Oracles: []Oracle{{Name: "config", After: oracleConfig}},
 })
 
-var cfgSections = []string{"user", "core", "alias-x"}
-var cfgKeys = []string{"name", "email", "editor"}
+var cfgSections = []string{"user", "core", "alias-x", "user", "core", "[x]", "x]"}
+var cfgKeys = []string{"name", "email", "editor", "name", "email", "[wip]", "[a", "b]", "#k", ";k"}
 
 func (g *G) configValue() string {
-	words := []string{"v", "a=b", "=", "x=y=z", "[sec]", "]", "[", "#c", "\"q\"", "'s'", "é", "日本", "a", "key = val", "1", "a.b", ";", "\\", "%s", "$HOME", "~", "<x>"}
+	words := []string{"the [boss]", "b]", "#2", ";x", "->", ">", "v", "a=b", "=", "x=y=z", "[sec]", "]", "[", "#c", "\"q\"", "'s'", "é", "日本", "a", "key = val", "1", "a.b", ";", "\\", "%s", "$HOME", "~", "<x>"}
 	if g.Chance(6, "longValue") {
 		// a long value: the config line crosses internal buffer sizes (4096, 8192)
 		n := g.Pick2([]int{4080, 4087, 4088, 4089, 4096, 4100, 5000, 8185, 8192, 9000, 300, 1000}, "valueLen")
